@@ -16,6 +16,12 @@ Ops (all stateless; every line carries its own grants):
   wsession scope=<scope> existing=<parties|none> proposed=<parties> roles=… signers=… grants=…
   wrecord scope=<scope> session=<parties> old=<parties|none> roles=… signers=… grants=…
   drecord scope=<scope|none> roles=<roles|none> signers=… grants=…
+  mowners mt=AddScopeOwner scope=<scope|none> add=<parties> roles=… signers=… grants=…
+  mowners mt=DeleteScopeOwner scope=<scope|none> remove=<addrs> roles=… signers=… grants=…
+The endpoint ops may end in `via=msg`: the harness then sends the message END TO END through
+the real message server on the stored state (same decision), and after an accepted message
+reads the stored entry back: the answer is `ok stored=<entry>`.  `mowners` always does: the
+message server computes the proposed owners from the stored scope.
 parties `A:5:o|B:2:r` (address:role:o(ptional)/r(equired)), scope `<rollup 0/1>/<other>/<parties>`,
 grants `granter>grantee:T|…` (`T#k` count authorization, `T!` expired), `-` = empty list.
 -/
@@ -103,6 +109,21 @@ def showDetails (ps : List PartyDetails) : String :=
     let addr := showAddr p.address
     s!"{addr}:{p.role}:{if p.optional then "o" else "r"}:{signer}:{if p.canBeUsedBySpec then "c" else "n"}:{if p.usedBySpec then "u" else "n"}")
 
+def showParties (ps : List Party) : String :=
+  if ps.isEmpty then "-" else "|".intercalate (ps.map fun p =>
+    s!"{showAddr p.address}:{p.role}:{if p.optional then "o" else "r"}")
+
+def showScope (s : Scope) : String :=
+  s!"{if s.rollup then "1" else "0"}/{s.other}/{showParties s.owners}"
+
+def MsgErr.show : MsgErr → String
+  | .basic => "err:basic"
+  | .notFound => "err:notfound"
+  | .ownerExists => "err:owner_exists"
+  | .ownerAbsent => "err:owner_absent"
+  | .noOwners => "err:no_owners"
+  | .invalid e => e.show
+
 def showRes (r : Except Err (List PartyDetails)) : String :=
   match r with
   | .ok ps => s!"ok {showDetails ps}"
@@ -117,6 +138,9 @@ def showUnit (r : Except Err Unit) : String :=
 
 /-- What the documentation requires of one call, in named clauses. -/
 structure Clauses where
+  /-- the message is well-formed for the stored state (message server: `ValidateBasic`, the
+  scope exists, an added owner is new, a removed address is an owner's, an owner stays) -/
+  precond : Bool := true
   /-- `ValidateOptionalParties` -/
   optionalOk : Bool := true
   /-- "all session parties must also be listed in the scope owners" -/
@@ -148,7 +172,8 @@ def Clauses.ofReq (env : Env) (mt : MsgType) (signers : List Addr) (used : List 
 /-- `tag` names the endpoint; `impl` is the first word of the implementation's output. -/
 def verdict (tag : String) (c : Clauses) (impl : String) : String :=
   if impl = "ok" then
-    if !c.optionalOk then s!"fail:{tag}:accepted_optional_party_without_rollup"
+    if !c.precond then s!"fail:{tag}:accepted_malformed_message"
+    else if !c.optionalOk then s!"fail:{tag}:accepted_optional_party_without_rollup"
     else if !c.partiesPresent then s!"fail:{tag}:accepted_party_not_in_scope"
     else if !c.rolesPresent then s!"fail:{tag}:accepted_role_absent"
     else if !c.provMust then s!"fail:{tag}:accepted_provenance_role_mismatch"
@@ -157,7 +182,7 @@ def verdict (tag : String) (c : Clauses) (impl : String) : String :=
     else if !c.smartContract then s!"fail:{tag}:accepted_smart_contract_signer"
     else "ok"
   else
-    let all := c.optionalOk && c.partiesPresent && c.rolesPresent && c.provMay && c.requiredCovered
+    let all := c.precond && c.optionalOk && c.partiesPresent && c.rolesPresent && c.provMay && c.requiredCovered
       && c.rolesCovered && c.smartContract
     -- a rejection is wrong only when every documented requirement is met
     if all then s!"fail:{tag}:rejected_valid:{if impl.startsWith "err:" then (impl.drop 4).toString else impl}" else "ok"
@@ -171,11 +196,22 @@ structure Parsed where
   out : String
   tag : String
   clauses : Clauses
+  /-- message-server ops: the stored entry an ACCEPTED message must leave behind -/
+  stored : Option String := none
+
+/-- `via=msg`: the model's answer carries the stored entry when it accepts. -/
+def Parsed.withStored (p : Parsed) (via : Bool) (stored : String) : Parsed :=
+  if via then
+    { p with out := if p.out = "ok" then s!"ok stored={stored}" else p.out, stored := some stored }
+  else p
 
 def stepWords (ws : List String) : Option Parsed := do
   let signers := parseAddrs ((kv ws "signers").getD "-")
   let grants ← parseGrants? ((kv ws "grants").getD "-")
   let env := mkEnv grants
+  let via ← match kv ws "via" with
+    | none => some false
+    | some v => if v = "msg" then some true else none
   match ws.head? with
   | some "wp" =>
     let mt ← kv ws "mt"
@@ -186,13 +222,13 @@ def stepWords (ws : List String) : Option Parsed := do
     let used := usedOf (validateAllRequiredPartiesSigned env mt req avail roles signers)
     let c := Clauses.ofReq env mt signers used (.parties req avail roles)
     let pv := Spec.provenanceRoleOk env avail
-    some ⟨showRes r, "wp", { c with provMust := pv, provMay := pv }⟩
+    some ⟨showRes r, "wp", { c with provMust := pv, provMay := pv }, none⟩
   | some "wo" =>
     let mt ← kv ws "mt"
     let required := parseAddrs ((kv ws "required").getD "-")
     let r := validateSignersWithoutParties env mt required signers
     let used := usedOf (validateAllRequiredSigned env mt required signers)
-    some ⟨showRes r, "wo", Clauses.ofReq env mt signers used (.addrs required)⟩
+    some ⟨showRes r, "wo", Clauses.ofReq env mt signers used (.addrs required), none⟩
   | some "wscope" =>
     let existing ← (kv ws "existing") >>= parseOpt? parseScope?
     let proposed ← (kv ws "proposed") >>= parseScope?
@@ -220,7 +256,8 @@ def stepWords (ws : List String) : Option Parsed := do
     let c := Clauses.ofReq env mt signers used (Spec.writeScopeReq existing proposed governing)
     let pv := Spec.provenanceRoleOk env proposed.owners
     let c := { c with rolesPresent := Spec.rolesPresent proposed.owners newRoles, provMust := pv, provMay := pv }
-    some ⟨showUnit r, if specChange then "wscope_spec_change" else "wscope", c⟩
+    let stored := showScope ({ proposed with other := proposed.other % 1000 })
+    some ((⟨showUnit r, if specChange then "wscope_spec_change" else "wscope", c, none⟩ : Parsed).withStored via stored)
   | some "dscope" =>
     let scope ← (kv ws "scope") >>= parseScope?
     let roles ← (kv ws "roles") >>= parseOpt? parseRoles?
@@ -231,7 +268,8 @@ def stepWords (ws : List String) : Option Parsed := do
       else match roles with
         | none => usedOf (validateAllRequiredSigned env mt (getRequiredPartyAddresses scope.owners) signers)
         | some rs => usedOf (validateAllRequiredPartiesSigned env mt scope.owners scope.owners rs signers)
-    some ⟨showUnit r, "dscope", Clauses.ofReq env mt signers used (Spec.deleteScopeReq scope roles)⟩
+    some ((⟨showUnit r, "dscope", Clauses.ofReq env mt signers used (Spec.deleteScopeReq scope roles), none⟩ : Parsed).withStored
+      via "none")
   | some "upd" =>
     let mt ← kv ws "mt"
     let scope ← (kv ws "scope") >>= parseScope?
@@ -242,7 +280,9 @@ def stepWords (ws : List String) : Option Parsed := do
       else usedOf (validateAllRequiredPartiesSigned env mt scope.owners scope.owners roles signers)
     let c := Clauses.ofReq env mt signers used (Spec.scopeUpdateReq scope roles)
     let pv := !scope.rollup || Spec.provenanceRoleOk env scope.owners
-    some ⟨showUnit r, "upd", { c with provMay := pv }⟩
+    let after : Scope :=
+      if mt = "AddScopeDataAccess" then { scope with other := scope.other + 1 } else { scope with other := scope.other - 1 }
+    some ((⟨showUnit r, "upd", { c with provMay := pv }, none⟩ : Parsed).withStored via (showScope after))
   | some "owners" =>
     let mt ← kv ws "mt"
     let scope ← (kv ws "scope") >>= parseScope?
@@ -258,7 +298,7 @@ def stepWords (ws : List String) : Option Parsed := do
       { c with optionalOk := scope.rollup || !proposed.any (·.optional)
                rolesPresent := Spec.rolesPresent proposed roles
                provMust := pv
-               provMay := pv }⟩
+               provMay := pv }, none⟩
   | some "wsession" =>
     let scope ← (kv ws "scope") >>= parseScope?
     let existing ← (kv ws "existing") >>= parseOpt? parseParties?
@@ -276,13 +316,13 @@ def stepWords (ws : List String) : Option Parsed := do
     let pvEx := match existing with
       | some ex => !scope.rollup || Spec.provenanceRoleOk env ex
       | none => true
-    some ⟨showUnit r, "wsession",
+    some ((⟨showUnit r, "wsession",
       { c with optionalOk := scope.rollup || !proposed.any (·.optional)
                partiesPresent := !scope.rollup ||
                  proposed.all fun p => scope.owners.any fun o => o.address == p.address && o.role == p.role
                rolesPresent := Spec.rolesPresent proposed roles
                provMust := pv
-               provMay := pv && pvEx }⟩
+               provMay := pv && pvEx }, none⟩ : Parsed).withStored via (showParties proposed))
   | some "wrecord" =>
     let scope ← (kv ws "scope") >>= parseScope?
     let session ← (kv ws "session") >>= parseParties?
@@ -298,9 +338,9 @@ def stepWords (ws : List String) : Option Parsed := do
         usedOf (validateAllRequiredSigned env mt (getPartyAddresses session ++ getPartyAddresses oldL) signers)
       else usedOf (validateAllRequiredPartiesSigned env mt (scope.owners ++ session ++ oldL) session roles signers)
     let c := Clauses.ofReq env mt signers used (Spec.writeRecordReq scope session old roles)
-    some ⟨showUnit r, "wrecord",
+    some ((⟨showUnit r, "wrecord",
       { c with rolesPresent := scope.rollup || Spec.rolesPresent session roles
-               provMay := !scope.rollup || Spec.provenanceRoleOk env session }⟩
+               provMay := !scope.rollup || Spec.provenanceRoleOk env session }, none⟩ : Parsed).withStored via "sess")
   | some "drecord" =>
     let scope ← (kv ws "scope") >>= parseOpt? parseScope?
     let roles ← (kv ws "roles") >>= parseOpt? parseRoles?
@@ -318,7 +358,43 @@ def stepWords (ws : List String) : Option Parsed := do
       | none => { c with smartContract := true }
       | some sc =>
         { c with provMay := !sc.rollup || roles.isNone || Spec.provenanceRoleOk env sc.owners }
-    some ⟨showUnit r, "drecord", c⟩
+    some ((⟨showUnit r, "drecord", c, none⟩ : Parsed).withStored via "none")
+  | some "mowners" =>
+    let mt ← kv ws "mt"
+    let stored ← (kv ws "scope") >>= parseOpt? parseScope?
+    let roles ← (kv ws "roles") >>= parseRoles?
+    -- the model of the message server; the owner list the message asks for (spec side)
+    let (r, wellFormed, asked) ←
+      if mt = "AddScopeOwner" then do
+        let add ← (kv ws "add") >>= parseParties?
+        some (msgAddScopeOwner env stored add roles signers,
+          Spec.addOwnersWellFormed env stored add signers,
+          fun (ex : Scope) => Spec.ownersAfterAdd ex.owners add)
+      else if mt = "DeleteScopeOwner" then
+        let remove := parseAddrs ((kv ws "remove").getD "-")
+        some (msgDeleteScopeOwner env stored remove roles signers,
+          Spec.removeOwnersWellFormed env stored remove signers,
+          fun (ex : Scope) => Spec.ownersAfterRemove ex.owners remove)
+      else none
+    let out := match r with
+      | .ok sc => s!"ok stored={showScope sc}"
+      | .error e => e.show
+    match stored, wellFormed with
+    | some scope, true =>
+      -- exactly the clauses of `owners`, on the STORED scope and the owner list asked for
+      let proposed := asked scope
+      let used :=
+        if !scope.rollup then usedOf (validateAllRequiredSigned env mt (getPartyAddresses scope.owners) signers)
+        else usedOf (validateAllRequiredPartiesSigned env mt scope.owners scope.owners roles signers)
+      let c := Clauses.ofReq env mt signers used (Spec.scopeUpdateReq scope roles)
+      let pv := Spec.provenanceRoleOk env proposed
+      some ⟨out, "mowners",
+        { c with optionalOk := scope.rollup || !proposed.any (·.optional)
+                 rolesPresent := Spec.rolesPresent proposed roles
+                 provMust := pv
+                 provMay := pv },
+        some (showScope { scope with owners := proposed })⟩
+    | _, _ => some ⟨out, "mowners", { precond := false }, none⟩
   | _ => none
 
 def stepOp (ws : List String) (impl : Option String) : String × String :=
@@ -327,7 +403,14 @@ def stepOp (ws : List String) (impl : Option String) : String × String :=
   | some p =>
     let v := match impl with
       | none => "-"
-      | some i => verdict p.tag p.clauses ((i.splitOn " ").headD "")
+      | some i =>
+        let first := (i.splitOn " ").headD ""
+        let v := verdict p.tag p.clauses first
+        -- an accepted message leaves the entry it asked for (message-server ops only)
+        match p.stored with
+        | some st =>
+          if v = "ok" ∧ first = "ok" ∧ i ≠ s!"ok stored={st}" then s!"fail:{p.tag}:stored_entry_differs" else v
+        | none => v
     (p.out, v)
 
 def driver : Driver where
